@@ -165,6 +165,85 @@ def values_all(e, env):
     return res
 
 
+def bind_args(repo, call, qualname, rel=REL, skip_self=True):
+    """Arguments of `call` ordered by the parameters of the callee (positional or keyword), or None."""
+    f = repo.try_func(rel, qualname)
+    if f is None or any(isinstance(a, ast.Starred) for a in call.args) or \
+            any(k.arg is None for k in call.keywords):
+        return None
+    names = [a.arg for a in f.node.args.args][1 if skip_self else 0:]
+    if len(call.args) > len(names):
+        return None
+    got = dict(zip(names, call.args))
+    for k in call.keywords:
+        if k.arg not in names or k.arg in got:
+            return None
+        got[k.arg] = k.value
+    if set(got) != set(names):
+        return None
+    return [got[n] for n in names]
+
+
+def expand_seed_args(repo, call, rd, node):
+    """[(expr, defining node or None)] for the (fwd, rev) arguments of a self._set_seeds(...) call.
+
+    Understands positional / keyword arguments, `*local` where local is a tuple literal snapshot, and
+    `*self.helper()` where the helper's body is a single `return (a, b)` (inlined)."""
+    f = repo.try_func(REL, 'Relevance._set_seeds')
+    if f is None:
+        return None
+    names = [a.arg for a in f.node.args.args][1:]
+    items = []
+    for a in call.args:
+        if not isinstance(a, ast.Starred):
+            items.append((a, None))
+            continue
+        v, elts, dn = a.value, None, None
+        if isinstance(v, ast.Name):
+            ds = rd.defs(node, v.id)
+            if len(ds) == 1:
+                d = next(iter(ds))
+                if d.kind == 'stmt' and isinstance(d.ast, ast.Assign) and len(d.ast.targets) == 1 and \
+                        astx.path(d.ast.targets[0]) == v.id and isinstance(d.ast.value, (ast.Tuple, ast.List)):
+                    elts, dn = d.ast.value.elts, d
+        elif isinstance(v, ast.Call) and not v.args and not v.keywords and \
+                astx.path(astx.receiver(v)) == 'self':
+            h = repo.try_func(REL, f'Relevance.{astx.callee_attr(v)}')
+            body = astx.strip_doc(h.node.body) if h is not None else []
+            if len(body) == 1 and isinstance(body[0], ast.Return) and \
+                    isinstance(body[0].value, (ast.Tuple, ast.List)) and \
+                    all((astx.path(e) or '').startswith('self.') for e in body[0].value.elts):
+                elts = body[0].value.elts
+        if elts is None or any(isinstance(e, ast.Starred) for e in elts):
+            return None
+        items += [(e, dn) for e in elts]
+    kw = {k.arg: k.value for k in call.keywords}
+    if None in kw or len(items) > len(names):
+        return None
+    res = []
+    for i, nm in enumerate(names):
+        if i < len(items):
+            res.append(items[i])
+        elif nm in kw:
+            res.append((kw[nm], None))
+        else:
+            return None
+    return res
+
+
+def cache_slot(tgt):
+    """(map expr, key1, key2) of a store target `M[k1][k2]` or `M.setdefault(k1, ...)[k2]`, else None."""
+    if not isinstance(tgt, ast.Subscript):
+        return None
+    inner = tgt.value
+    if isinstance(inner, ast.Subscript):
+        return inner.value, inner.slice, tgt.slice
+    if isinstance(inner, ast.Call) and astx.callee_attr(inner) == 'setdefault' and inner.args and \
+            not inner.keywords and astx.receiver(inner) is not None:
+        return astx.receiver(inner), inner.args[0], tgt.slice
+    return None
+
+
 def is_yield_node(n):
     return n.kind == 'stmt' and isinstance(n.ast, (ast.Expr, ast.Assign)) and \
         isinstance(getattr(n.ast, 'value', None), ast.Yield)
@@ -302,15 +381,16 @@ def ctx(repo, out):
                 for r in restores:
                     if kind == 'seeds':
                         call = [c for k, c in node_writes(r) if k == 'set_seeds'][0]
-                        a0 = astx.arg(call, 0, 'fwd_seeds')
-                        a1 = astx.arg(call, 1, 'rev_seeds')
+                        ex = expand_seed_args(repo, call, rd, r)
                         got = []
-                        for a in (a0, a1):
-                            if not isinstance(a, ast.Name):
+                        for a, dn in (ex or [(None, None), (None, None)]):
+                            if dn is not None:
+                                got.append((dn, astx.path(a)))
+                            elif isinstance(a, ast.Name):
+                                d, v = _snapshot_def(rd, r, a.id)
+                                got.append((d, astx.path(v) if v is not None else None))
+                            else:
                                 got.append((None, None))
-                                continue
-                            d, v = _snapshot_def(rd, r, a.id)
-                            got.append((d, astx.path(v) if v is not None else None))
                         paths = [p for _, p in got]
                         if paths == ["self._seed_vars['fwd']", "self._seed_vars['rev']"]:
                             late = [d for d, _ in got for f in firsts
@@ -759,12 +839,13 @@ def arrays(repo, out):
             continue
         fam = family(t, {})
         c = n.ast.value
-        if not (isinstance(c, ast.Call) and astx.call_name(c) == 'self._get_rel_array' and len(c.args) == 4
-                and not c.keywords):
+        cargs = bind_args(repo, c, 'Relevance._get_rel_array') \
+            if isinstance(c, ast.Call) and astx.call_name(c) == 'self._get_rel_array' else None
+        if cargs is None or len(cargs) != 4:
             out.unsure(fn, n.ast, 'current relevance array not obtained from self._get_rel_array(map, single, fwd, rev)')
             continue
         found.add(fam)
-        fams = [family(c.args[0], {}), family(c.args[1], {})]
+        fams = [family(cargs[0], {}), family(cargs[1], {})]
         if None in fams:
             out.unsure(fn, n.ast, 'map arguments are not the known relevance maps')
             continue
@@ -774,7 +855,7 @@ def arrays(repo, out):
                     f'{[nm[f] for f in fams]} maps: it is later indexed with the {nm[fam]} index',
                     key=f'set-seeds-family-{fam}')
             continue
-        oo = [origin(n, c.args[2]), origin(n, c.args[3])]
+        oo = [origin(n, cargs[2]), origin(n, cargs[3])]
         if oo == [0, 1]:
             out.ok(fn, n.ast, f'{fam}-array from {fam}-maps with (fwd, rev) seeds')
         elif oo == [1, 0]:
@@ -801,10 +882,11 @@ def arrays(repo, out):
             for c in [c for c in astx.calls(st) if astx.stmt_of(c) is st]:
                 if astx.callee_attr(c) != '_combine_relevance' or astx.path(astx.receiver(c)) != 'self':
                     continue
-                if len(c.args) != 4 or c.keywords:
-                    out.unsure(f, st, '_combine_relevance not called with four positional arguments')
+                cargs = bind_args(repo, c, 'Relevance._combine_relevance')
+                if cargs is None or len(cargs) != 4:
+                    out.unsure(f, st, '_combine_relevance arguments cannot be bound to (fmap, fwd_seeds, rmap, rev_seeds)')
                     continue
-                (d0, b0), (d1, b1) = _dir_slot(c.args[0]), _dir_slot(c.args[2])
+                (d0, b0), (d1, b1) = _dir_slot(cargs[0]), _dir_slot(cargs[2])
                 if d0 is None or d1 is None:
                     out.unsure(f, st, "array maps are not of the form X['fwd'], X['rev']")
                     continue
@@ -831,7 +913,7 @@ def arrays(repo, out):
                         users = [s2 for s2 in astx.walk_stmts(f.node.body)
                                  if isinstance(s2, ast.Assign) and len(s2.targets) == 1 and
                                  isinstance(s2.value, ast.Name) and s2.value.id == tgt.id and
-                                 isinstance(s2.targets[0], ast.Subscript)]
+                                 cache_slot(s2.targets[0]) is not None]
                         if len(users) != 1:
                             out.unsure(f, st, 'combined array is not stored into exactly one cache slot')
                             continue
@@ -843,10 +925,11 @@ def arrays(repo, out):
                             out.unsure(f, st, 'combined array is redefined before it is cached')
                             continue
                         tgt = users[0].targets[0]
-                if not (isinstance(tgt, ast.Subscript) and isinstance(tgt.value, ast.Subscript)):
+                slot = cache_slot(tgt)
+                if slot is None:
                     out.unsure(f, st, 'result is not stored as <map>[fwd][rev]')
                     continue
-                k1, k2, base = tgt.value.slice, tgt.slice, tgt.value.value
+                base, k1, k2 = slot
                 if not generic:
                     ft = family(base, al)
                     if ft is None:
@@ -856,15 +939,15 @@ def arrays(repo, out):
                         nm = {'v': 'variable', 's': 'system'}
                         out.bad(f, st, f'{nm[f0]} arrays are cached in the {nm[ft]} map', key='combine-family')
                         continue
-                e1, e2 = _key_equiv(k1, c.args[1]), _key_equiv(k2, c.args[3])
+                e1, e2 = _key_equiv(k1, cargs[1]), _key_equiv(k2, cargs[3])
                 if e1 and e2:
                     out.ok(f, st, 'cache key [fwd][rev] equals the combined seeds; families agree')
-                elif _key_equiv(k1, c.args[3]) and _key_equiv(k2, c.args[1]):
+                elif _key_equiv(k1, cargs[3]) and _key_equiv(k2, cargs[1]):
                     out.bad(f, st, 'cached under [rev][fwd] although every reader indexes [fwd][rev]',
                             key='combine-keys-swapped')
                 else:
                     out.bad(f, st, f'cached under [{astx.src(k1)}][{astx.src(k2)}] but combined from seeds '
-                            f'({astx.src(c.args[1])}, {astx.src(c.args[3])}): a later lookup of that key '
+                            f'({astx.src(cargs[1])}, {astx.src(cargs[3])}): a later lookup of that key '
                             'returns the relevance of other seeds', key='combine-key-mismatch')
     # the cache read in _get_rel_array uses the same key order as its store
     f = repo.func(REL, 'Relevance._get_rel_array')
@@ -890,6 +973,13 @@ def arrays(repo, out):
             d, base = _dir_slot(e)
             if d and astx.path(base) in ('self._seed_vars', 'self._all_seed_vars'):
                 return d
+            if isinstance(e, ast.IfExp) and depth < 4:
+                da, db = seed_dir(node, e.body, depth + 1), seed_dir(node, e.orelse, depth + 1)
+                if da == db:
+                    return da
+                if {da, db} <= {'fwd', 'rev', 'mixed'}:
+                    return 'mixed'
+                return None
             if isinstance(e, ast.Name) and depth < 4:
                 dirs = set()
                 for dn in crd.defs(node, e.id):
@@ -914,11 +1004,11 @@ def arrays(repo, out):
                 if n.tag and any(m is not n and m.ast is n.ast and not m.tag.endswith('/exc') and m.id < n.id
                                  for m in cg.nodes_of(n.ast)):
                     continue
-                a0, a1 = astx.arg(c, 0, 'fwd_seeds'), astx.arg(c, 1, 'rev_seeds')
-                if a0 is None or a1 is None:
+                ex = expand_seed_args(repo, c, crd, n)
+                if ex is None:
                     out.unsure(f, c, '_set_seeds not called with (fwd, rev)')
                     continue
-                d0, d1 = seed_dir(n, a0), seed_dir(n, a1)
+                d0, d1 = [seed_dir(dn if dn is not None else n, a) for a, dn in ex]
                 if (d0, d1) == ('fwd', 'rev'):
                     out.ok(f, c, 'fwd seeds in the fwd slot, rev seeds in the rev slot')
                 elif 'mixed' in (d0, d1):
@@ -1600,6 +1690,24 @@ _ALL_OLD = """            save_fwd = self._seed_vars['fwd']
                 self._active = save_active
                 self._set_seeds(save_fwd, save_rev)
 """
+_SEEDS_OLD = """        if self._active is False:  # if already inactive from higher level, don't change anything
+            yield
+        else:
+            save_fwd = self._seed_vars['fwd']
+            save_rev = self._seed_vars['rev']
+            save_active = self._active
+            self._active = True
+            if fwd_seeds is None:
+                fwd_seeds = self._seed_vars['fwd']
+            if rev_seeds is None:
+                rev_seeds = self._seed_vars['rev']
+            self._set_seeds(fwd_seeds, rev_seeds)
+            try:
+                yield
+            finally:
+                self._set_seeds(save_fwd, save_rev)
+                self._active = save_active
+"""
 _NL_OLD = """            save_active = self._active
             save_relsarray = self._current_rel_sarray
             self._active = True
@@ -1917,6 +2025,112 @@ selftest(
     Twin('twin-once-any-set', REL, "        if model._pre_components is not None:\n            return\n", "        if model._pre_components is not None or model._post_components is not None:\n            return\n"),
     Twin('twin-off-active-explicit', REL, '        if self._active or (not active and self._active is None):',
          '        if self._active is True or (self._active is None and not active):'),
+    Twin('twin-arrays-kwargs-setdefault', REL, """            relarr = self._combine_relevance(single_seed2rel['fwd'], fwd_seeds,
+                                             single_seed2rel['rev'], rev_seeds)
+            if fwd_seeds not in seed_map:
+                seed_map[fwd_seeds] = {}
+            seed_map[fwd_seeds][rev_seeds] = relarr
+
+        return relarr
+""", """            relarr = self._combine_relevance(fmap=single_seed2rel['fwd'], fwd_seeds=fwd_seeds,
+                                             rmap=single_seed2rel['rev'], rev_seeds=rev_seeds)
+            seed_map.setdefault(fwd_seeds, {})[rev_seeds] = relarr
+            return relarr
+"""),
+    Twin('twin-combine-temp-early-return', REL, """                if combined is None:
+                    combined = farr & rmap[rseed]
+                else:
+                    combined |= (farr & rmap[rseed])
+
+        return np.zeros(0, dtype=bool) if combined is None else self._get_cached_array(combined)
+""", """                intersection = farr & rmap[rseed]
+                if combined is None:
+                    combined = intersection
+                else:
+                    combined |= intersection
+
+        if combined is None:
+            return np.zeros(0, dtype=bool)
+
+        return self._get_cached_array(combined)
+"""),
+    Twin('twin-ctx-tuple-snapshot-helper', REL, _ALL_OLD, """            saved_seeds = (self._seed_vars['fwd'], self._seed_vars['rev'])
+            save_active = self._active
+            self._active = True
+            self._set_seeds(*self.get_full_seeds())
+            try:
+                yield
+            finally:
+                self._active = save_active
+                self._set_seeds(*saved_seeds)
+"""),
+    Twin('twin-ctx-early-return-ifexp-defaults', REL, _SEEDS_OLD, """        if self._active is False:
+            yield
+            return
+
+        save_fwd = self._seed_vars['fwd']
+        save_rev = self._seed_vars['rev']
+        save_active = self._active
+        self._active = True
+        self._set_seeds(save_fwd if fwd_seeds is None else fwd_seeds,
+                        rev_seeds=save_rev if rev_seeds is None else rev_seeds)
+        try:
+            yield
+        finally:
+            self._set_seeds(save_fwd, save_rev)
+            self._active = save_active
+"""),
+    Twin('twin-arrays-set-seeds-kwargs', REL, """        self._current_rel_sarray = self._get_rel_array(self._seed_sys_map,
+                                                       self._single_seed2relsys,
+                                                       fwd_seeds, rev_seeds)""",
+         """        self._current_rel_sarray = self._get_rel_array(self._seed_sys_map, rev_seeds=rev_seeds,
+                                                       single_seed2rel=self._single_seed2relsys,
+                                                       fwd_seeds=fwd_seeds)"""),
+    Mutant('ctx-tuple-snapshot-swapped', REL, _ALL_OLD, """            saved_seeds = (self._seed_vars['rev'], self._seed_vars['fwd'])
+            save_active = self._active
+            self._active = True
+            self._set_seeds(*self.get_full_seeds())
+            try:
+                yield
+            finally:
+                self._active = save_active
+                self._set_seeds(*saved_seeds)
+""", 'C24.ctx'),
+    Mutant('ctx-tuple-snapshot-late', REL, _ALL_OLD, """            save_active = self._active
+            self._active = True
+            self._set_seeds(*self.get_full_seeds())
+            saved_seeds = (self._seed_vars['fwd'], self._seed_vars['rev'])
+            try:
+                yield
+            finally:
+                self._active = save_active
+                self._set_seeds(*saved_seeds)
+""", 'C24.ctx'),
+    Mutant('arrays-ifexp-default-crossed', REL, _SEEDS_OLD, """        if self._active is False:
+            yield
+            return
+
+        save_fwd = self._seed_vars['fwd']
+        save_rev = self._seed_vars['rev']
+        save_active = self._active
+        self._active = True
+        self._set_seeds(save_fwd if fwd_seeds is None else fwd_seeds,
+                        save_fwd if rev_seeds is None else rev_seeds)
+        try:
+            yield
+        finally:
+            self._set_seeds(save_fwd, save_rev)
+            self._active = save_active
+""", 'C24.arrays'),
+    Mutant('arrays-kwargs-direction-swapped', REL, """            relarr = self._combine_relevance(single_seed2rel['fwd'], fwd_seeds,
+                                             single_seed2rel['rev'], rev_seeds)""",
+           """            relarr = self._combine_relevance(rmap=single_seed2rel['fwd'], fwd_seeds=fwd_seeds,
+                                             fmap=single_seed2rel['rev'], rev_seeds=rev_seeds)""", 'C24.arrays'),
+    Mutant('arrays-setdefault-key-swapped', REL, """            if fwd_seeds not in seed_map:
+                seed_map[fwd_seeds] = {}
+            seed_map[fwd_seeds][rev_seeds] = relarr
+""", """            seed_map.setdefault(rev_seeds, {})[fwd_seeds] = relarr
+""", 'C24.arrays'),
     Twin('twin-gate-local-flag', GROUP, "            with relevance.active(self._linear_solver.use_relevance()):\n                subs = list(",
          "            prune = self._linear_solver.use_relevance()\n            with relevance.active(prune):\n                subs = list("),
 )
